@@ -8,12 +8,15 @@ def run(ctx):
     g = ctx.grammar
     facts = ctx.bin
     P = "C11-G"
+    from .confimm import rule_config_as_loaded
+    rule_config_as_loaded(ctx, facts, "C11-R1")
     gram.g2_comment(ctx, g, P)
     gram.g3_comment_eoi(ctx, g, P)
     gram.g4_non_atomic(ctx, g, P)
     gram.g5_name_atomic(ctx, g, P)
     gram.g7_literal_mandatory(ctx, g, P)
     gram.g8_no_backslash_first(ctx, g, P)
+    gram.g16_strings_atomic(ctx, g, P)
     gram.g12_scan_strings(ctx, g, P, require_string=False)
     finder.rule_macro_filter(ctx, facts, "C11-R1")
     finder.rule_filter_before_entry(ctx, facts, "C11-R1")
